@@ -680,7 +680,7 @@ func (dc *ClientDnsConnection) AutodetectFragmentSize() (uint32, error) {
 	var max uint32 = 0
 
 	log.Debugf("Autoprobing max downstream fragment size... (skip with -m fragsize)")
-	for !dc.Closed() && (fragmentRange >= 8 || max < 300) {
+	for !dc.Closed() && fragmentRange > 0 && (fragmentRange >= 8 || max < 300) {
 		/* stop the slow probing early when we have enough bytes anyway */
 		for i := 0; !dc.Closed() && i < 3; i++ {
 			resp, err := dc.SendFragmentSizeTest(proposed, secs(1))
@@ -697,10 +697,8 @@ func (dc *ClientDnsConnection) AutodetectFragmentSize() (uint32, error) {
 			if proposed != resp.FragmentSize {
 				// Keep max as is
 				log.Warnf("Expected %d bytes but server acknowledged %d", proposed, resp.FragmentSize)
-				break
 			} else if uint32(len(resp.Data)) != resp.FragmentSize {
 				log.Warnf("Expected %d bytes but server returned %d", proposed, resp.FragmentSize)
-				break
 			} else if err := dc.CheckFragmentSizeResponse(resp.Data); err != nil {
 				err = errors.WithStack(err)
 				if dc.Serializer.Downstream.Encoder == enc.Base32Encoding {
@@ -713,22 +711,24 @@ func (dc *ClientDnsConnection) AutodetectFragmentSize() (uint32, error) {
 			} else {
 				max = proposed
 			}
+			break
+		}
 
-			if max < 0 {
-				break
-			}
+		/* Every round halves the range, whether the probe got through or not, so the search is bounded */
+		if max != proposed && fragmentRange > proposed {
+			/* searching downwards: keep the next (unsigned) proposal above zero */
+			fragmentRange = proposed
+		}
+		fragmentRange = fragmentRange >> 1
 
-			fragmentRange = fragmentRange >> 1
-
-			if max == proposed {
-				/* Try bigger */
-				log.Tracef("%d ok, will try %d next.. ", proposed, proposed+fragmentRange)
-				proposed += fragmentRange
-			} else {
-				/* Try smaller */
-				log.Tracef("%d not ok, will try %d next.. ", proposed, proposed-fragmentRange)
-				proposed -= fragmentRange
-			}
+		if max == proposed {
+			/* Try bigger */
+			log.Tracef("%d ok, will try %d next.. ", proposed, proposed+fragmentRange)
+			proposed += fragmentRange
+		} else {
+			/* Try smaller */
+			log.Tracef("%d not ok, will try %d next.. ", proposed, proposed-fragmentRange)
+			proposed -= fragmentRange
 		}
 	}
 	if dc.Closed() {
